@@ -482,7 +482,31 @@ func isDeferredClosure(g *ssa.Function) bool {
 			}
 		}
 	})
-	return res
+	if res {
+		return true
+	}
+	// a literal bound to a local name of the enclosing function and deferred by the sibling literals that use it
+	// (workerDone := func() {…}; go func() { defer workerDone(); … }()): every use must be a defer
+	nDefer, nOther := 0, 0
+	for _, f2 := range withAnon(rootFn(g)) {
+		instrs(f2, func(b *ssa.BasicBlock, i int, in ssa.Instruction) {
+			switch x := in.(type) {
+			case *ssa.Defer:
+				if resolveFuncValue(x.Call.Value, 0) == g {
+					nDefer++
+				}
+			case *ssa.Call:
+				if !x.Call.IsInvoke() && resolveFuncValue(x.Call.Value, 0) == g {
+					nOther++
+				}
+			case *ssa.Go:
+				if resolveFuncValue(x.Call.Value, 0) == g {
+					nOther++
+				}
+			}
+		})
+	}
+	return nDefer > 0 && nOther == 0
 }
 
 // timerDrainIdiom: `if !timer.Stop() && timerC != nil { <-timerC }`.
